@@ -1775,16 +1775,18 @@ func (s *BgpServer) handleFSMMessage(peer *peer, e *fsmMsg) {
 				dropFamilies = peer.configuredRFlist()
 			}
 
-			// Always clear EndOfRibReceived state on PeerDown
+			// Always clear EndOfRibReceived state on PeerDown.
+			// (A fresh variable each time: the address of the previous copy may
+			// have been published with Update and is read without the lock.)
 			peer.fsm.lock.Lock()
-			conf = peer.fsm.pConf.ReadCopy()
-			for i, af := range conf.AfiSafis {
+			downConf := peer.fsm.pConf.ReadCopy()
+			for i, af := range downConf.AfiSafis {
 				if slices.Contains(gracefulFamilies, af.State.Family) {
-					conf.AfiSafis[i].MpGracefulRestart.State.Running = true
+					downConf.AfiSafis[i].MpGracefulRestart.State.Running = true
 				}
-				conf.AfiSafis[i].MpGracefulRestart.State.EndOfRibReceived = false
+				downConf.AfiSafis[i].MpGracefulRestart.State.EndOfRibReceived = false
 			}
-			peer.fsm.pConf.Update(&conf)
+			peer.fsm.pConf.Update(&downConf)
 			peer.prefixLimitWarned = make(map[bgp.Family]bool)
 			peer.fsm.lock.Unlock()
 
@@ -1794,11 +1796,11 @@ func (s *BgpServer) handleFSMMessage(peer *peer, e *fsmMsg) {
 			s.resetAdvertisedRoutes(peer)
 			s.dropAdjRIBIn(peer, dropFamilies)
 
-			if conf.Config.PeerAs == 0 {
+			if downConf.Config.PeerAs == 0 {
 				peer.fsm.lock.Lock()
-				conf = peer.fsm.pConf.ReadCopy()
-				conf.State.PeerAs = 0
-				peer.fsm.pConf.Update(&conf)
+				unnumbered := peer.fsm.pConf.ReadCopy()
+				unnumbered.State.PeerAs = 0
+				peer.fsm.pConf.Update(&unnumbered)
 				peer.fsm.lock.Unlock()
 			}
 
